@@ -308,9 +308,13 @@ int32 matrixSslDecodeTls13(ssl_t *ssl,
         decryptTo = pb.buf.start; /* In-situ decryption. */
         if (ssl->decrypt(ssl, pb.buf.start, decryptTo, ssl->rec.len) < 0)
         {
+            /* A record that cannot even hold the inner content type and
+               the tag is not early data; counting it would subtract from
+               tls13ReceivedEarlyDataLen and hand skipped bytes back. */
             if (MATRIX_IS_SERVER(ssl) &&
                     ssl->tls13ServerEarlyDataEnabled == PS_FALSE &&
-                    ssl->extFlags.got_early_data == 1)
+                    ssl->extFlags.got_early_data == 1 &&
+                    ssl->rec.len > AEAD_TAG_LEN(ssl))
             {
                 /* If server does not accept early_data then ignore decrypt errors
                    to up-to configured ssl->tls13SessionMaxEarlyData bytes.
